@@ -64,7 +64,7 @@ def tree_hash(extra=""):
     return h.hexdigest()[:16]
 
 
-def build_harness(variant="A", sanitize="address", extra_cflags=(), exe_sources=("exec.c", "ops_table.c"),
+def build_harness(variant="A", sanitize="address", extra_cflags=(), exe_sources=("exec.c", "ops_table.c", "ops_codec.c"),
                   exe_name="exec", threadpool="plain"):
     """compile the library sources of /repo's working tree + harness into build/<variant>/<exe_name>.
     Returns (path, log).  Rebuilds whenever any source or header changed."""
